@@ -5,7 +5,7 @@ import ast
 from fractions import Fraction
 
 from ..absint import ClassRef, FuncV, Interp, ObjV, VecV
-from ..forms import Const, DictV, Form, SliceV, TupleV, atom_children, mk_fn, vkey
+from ..forms import Const, DictV, Form, SliceV, TupleV, atom_children, const_float, mk_fn, vkey
 from ..rules import S, check_late_binding
 from ..srcmodel import src_of
 
@@ -850,7 +850,7 @@ def _threshold_alternatives(v, guards=(), where=None):
         yield v, guards
 
 
-def _strictly_between(v, guards, mu0, mu1, depth=0):
+def _strictly_between(v, guards, mu0, mu1, depth=0, devs=None):
     """("grid", ok, note) when v is an element of a grid between the levels: ok says whether it provably avoids both levels.
     None when v is not such an element.  A grid between two points that are themselves strictly inside is strictly inside; the
     grid linspace(mu0, mu1, n) without its first and last element is; the whole grid is only under 0 < index < n - 1"""
@@ -859,6 +859,39 @@ def _strictly_between(v, guards, mu0, mu1, depth=0):
         return None
     G, i = a[1], a[2]
     g = G.single_atom()
+    if g and ((g[0] == "fn" and g[1] == "ifexp" and len(g[2]) == 3) or g[0] == "phi") and G == Form.atom(g) and devs is not None:
+        # the grid itself is chosen between alternatives (between the bulks of the populations when such an interval exists, else between
+        # the levels): each must lie within [mu0, mu1] - an end is a level, or a level moved INTO the eye by a non-negative multiple of
+        # its own deviation - and the index must be interior, measured on the grid as used
+        alts = list(g[2][1:]) if g[0] == "fn" else list(g[2])
+        s0_, s1_ = devs
+
+        def inside_end(e, level, dev, sign):
+            if not isinstance(e, Form):
+                return False
+            if e == level:
+                return True
+            q = const_float((e - level) / dev) if isinstance(dev, Form) else None
+            return q is not None and q * sign >= 0
+        ok_alts = True
+        counts = []
+        for alt in alts:
+            ga = alt.single_atom() if isinstance(alt, Form) else None
+            if not (ga and ga[0] == "fn" and ga[1] == "linspace" and len(ga[2]) >= 2 and not [1 for k_, _v in ga[3] if k_ == "endpoint"]):
+                return None
+            lo_, hi_ = ga[2][0], ga[2][1]
+            if not ((inside_end(lo_, mu0, s0_, 1) and inside_end(hi_, mu1, s1_, -1)) or (inside_end(hi_, mu0, s0_, 1) and inside_end(lo_, mu1, s1_, -1))):
+                ok_alts = False
+            if len(ga[2]) > 2 and isinstance(ga[2][2], Form):
+                counts.append(ga[2][2])
+        if not isinstance(i, Form):
+            return ("grid", False, "")
+        ns = [mk_fn("len", [G]), Form.atom(("attr", G, "size")), mk_fn("size", [G])] + (counts[:1] if counts and all(c == counts[0] for c in counts) else [])
+        zero, one = Form.num(0), Form.num(1)
+        gds = [c for c in guards if isinstance(c, Form)]
+        lower = any(c == mk_fn("gt", [i, zero]) or c == mk_fn("ge", [i, one]) or c == mk_fn("ne", [i, zero]) for c in gds)
+        upper = any(c == mk_fn("gt", [n - 1, i]) or c == mk_fn("ge", [n - 2, i]) or c == mk_fn("ne", [i, n - 1]) or c == mk_fn("gt", [n, i + 1]) for n in ns for c in gds)
+        return ("grid", bool(ok_alts and lower and upper), "" if not (lower or upper) else " on both sides")
     if g and g[0] == "idx" and isinstance(g[1], Form) and isinstance(g[2], SliceV):
         gg = g[1].single_atom()
         sl = g[2]
@@ -880,13 +913,50 @@ def _strictly_between(v, guards, mu0, mu1, depth=0):
         lower = any(c == mk_fn("gt", [i, zero]) or c == mk_fn("ge", [i, one]) or c == mk_fn("ne", [i, zero]) for c in guards)
         upper = any(c == mk_fn("gt", [n - 1, i]) or c == mk_fn("ge", [n - 2, i]) or c == mk_fn("ne", [i, n - 1]) or c == mk_fn("gt", [n, i + 1]) for n in ns for c in guards)
         return ("grid", bool(lower and upper and closed), "" if not (lower or upper) else " on both sides")
-    ends = [_strictly_between(e, guards, mu0, mu1, depth + 1) for e in (lo_, hi_)]
+    if devs is not None and all(isinstance(x_, Form) for x_ in (lo_, hi_) + tuple(devs)):
+        # ends written as a level moved by a multiple of its own deviation: into the eye (fine, under the interior test) or out of it
+        for e0, e1 in ((lo_, hi_), (hi_, lo_)):
+            q0, q1 = const_float((e0 - mu0) / devs[0]), const_float((mu1 - e1) / devs[1])
+            if q0 is not None and q1 is not None:
+                if q0 < 0 or q1 < 0:
+                    return ("grid", False, " (the grid reaches beyond a level)")
+                if not isinstance(i, Form):
+                    return ("grid", False, "")
+                ns = [mk_fn("len", [G]), Form.atom(("attr", G, "size")), mk_fn("size", [G])] + ([g[2][2]] if len(g[2]) > 2 and isinstance(g[2][2], Form) else [])
+                zero, one = Form.num(0), Form.num(1)
+                gds = [c for c in guards if isinstance(c, Form)]
+                lower = any(c == mk_fn("gt", [i, zero]) or c == mk_fn("ge", [i, one]) or c == mk_fn("ne", [i, zero]) for c in gds)
+                upper = any(c == mk_fn("gt", [n - 1, i]) or c == mk_fn("ge", [n - 2, i]) or c == mk_fn("ne", [i, n - 1]) or c == mk_fn("gt", [n, i + 1]) for n in ns for c in gds)
+                return ("grid", bool(lower and upper), "")
+    ends = [_strictly_between(e, guards, mu0, mu1, depth + 1, devs) for e in (lo_, hi_)]
     if all(e is not None for e in ends):
         return ("grid", all(e[1] for e in ends), "")
     return None
 
 
-def rule_threshold_interior(ctx, rule):
+def _grid_moved_into_eye(v, mu0, mu1, s0, s1):
+    """v = G[i] where (an alternative of) the grid G runs from mu0 + a*s0 to mu1 - b*s1 with constants a, b >= 1"""
+    a = v.single_atom() if isinstance(v, Form) else None
+    if not (a and a[0] == "idx" and isinstance(a[1], Form)):
+        return False
+    g = a[1].single_atom()
+    alts = [a[1]]
+    if g and g[0] == "fn" and g[1] == "ifexp" and len(g[2]) == 3:
+        alts = list(g[2][1:])
+    elif g and g[0] == "phi":
+        alts = list(g[2])
+    for alt in alts:
+        ga = alt.single_atom() if isinstance(alt, Form) else None
+        if not (ga and ga[0] == "fn" and ga[1] == "linspace" and len(ga[2]) >= 2 and all(isinstance(e, Form) for e in ga[2][:2]) and isinstance(s0, Form) and isinstance(s1, Form)):
+            continue
+        for lo_, hi_ in ((ga[2][0], ga[2][1]), (ga[2][1], ga[2][0])):
+            qa, qb = const_float((lo_ - mu0) / s0), const_float((mu1 - hi_) / s1)
+            if qa is not None and qb is not None and qa >= 1 and qb >= 1:
+                return True
+    return False
+
+
+def rule_threshold_interior(ctx, rule, rule_bulk=None):
     """mu0 < threshold < mu1: the threshold is read off a grid linspace(mu0, mu1, n) at the least of an estimated density.  That
     least is the valley between the two levels only when it is an interior point; a density estimated from a handful of samples
     (3 OFF and 1 ON slot of one PPM symbol: kernel width 0.38 of the eye) only falls over [mu0, mu1], its least is the LAST grid
@@ -925,7 +995,16 @@ def rule_threshold_interior(ctx, rule):
                               "(bits 01, M = 4, sps 16: hard decision 00)")
             continue
         n_alt += 1
-        verdict = _strictly_between(v, guards, mu0, mu1)
+        verdict = _strictly_between(v, guards, mu0, mu1, 0, (eye.fields.get("s0"), eye.fields.get("s1")))
+        if rule_bulk is not None and verdict is not None and verdict[0] == "grid":
+            # ... and the valley is looked for BETWEEN the bulks of the two populations: a grid that runs from level to level includes
+            # the inner half of each population, where a level split by inter-symbol interference (or seen through a handful of
+            # samples) has a dip of its own that can be deeper than the over-smoothed valley between the levels
+            moved = _grid_moved_into_eye(v, mu0, mu1, eye.fields.get("s0"), eye.fields.get("s1"))
+            ctx.check(rule_bulk, moved, fi, rets[0].node, "GET_EYE: density valley searched between the bulks of the two populations", "grid ends at least one deviation inside each level",
+                      "the density minimum is searched over linspace(mu0, mu1): on a short record with inter-symbol interference the ON samples form two groups and the dip BETWEEN THEM is the "
+                      "global minimum - ppm.DSP(hard, estimated threshold) on two 4-PPM symbols (bits 0110, sps 25, NRZ, ER 10 dB, DM -9990 ps^2, PD BW 11 GHz, no noise): ON samples 0.034 / 0.058 / "
+                      "0.060, OFF below 0.007, threshold 0.0388 above the lowest ON sample, wrong in 18 of 20 calls (midway decision and soft decision right)")
         if verdict is not None and verdict[0] == "grid":
             ok = verdict[1]
             ctx.check(rule, ok, fi, rets[0].node, label + " [density minimum on the grid]", "taken only when the minimiser is an interior grid point (or read from a grid without the levels)",
